@@ -150,6 +150,9 @@ def prove(theorems, modules):
     Returns dict(ok, obligations, discharged, detail, axioms)."""
     t = time.time()
     res = {"ok": False, "obligations": len(theorems), "discharged": 0, "detail": "", "axioms": {}}
+    if not theorems:
+        res["ok"] = True
+        return res
     p = sh(["lake", "build"] + modules, cwd=LEAN)
     if p.returncode != 0:
         txt = p.stdout.decode(errors="replace") + p.stderr.decode(errors="replace")
